@@ -146,7 +146,7 @@ func (c *Ctx) fnName() string {
 	if c.fn.Pkg == nil {
 		return c.fn.String()
 	}
-	return c.fn.RelString(c.fn.Pkg.Pkg)
+	return c.fn.RelString(fnTypesPkg(c.fn))
 }
 
 // ---------------------------------------------------------------- CFG helpers
